@@ -43,6 +43,7 @@ var (
 	vFails  []string
 	vObs    []vObsT
 	vParams map[string]int
+	vPredicted []vObsT // observations predicted by the engine for this replay
 	vBadKind int
 	vT      *testing.T
 )
@@ -126,6 +127,7 @@ func vLessStr(a, b string) bool   { return a < b }
 func vHasPrefix(a, p []byte) bool { return bytes.HasPrefix(a, p) }
 func vParam(name string) int      { return vParams[name] }
 func vEngine() bool               { return false }
+func vIsConcrete(b bool) bool     { return true }
 func vTrace(on bool)              {}
 
 type vResultT struct {
@@ -142,6 +144,7 @@ type vResultT struct {
 
 func vRunOnce(fn func(), rf *vReplayT) (res vResultT) {
 	vIn, vPos, vFails, vObs, vParams, vBadKind = rf.Inputs, 0, nil, nil, rf.Params, 0
+	vPredicted = rf.Obs
 	defer func() {
 		if r := recover(); r != nil {
 			if _, ok := r.(vSkip); ok {
